@@ -164,7 +164,6 @@ def parseDigits : Nat → List Nat → Option Nat
 def parseUsize : List Nat → Option Nat
   | [] => none
   | [43] => none
-  | [45] => none
   | 43 :: rest => parseDigits 0 rest
   | text => parseDigits 0 text
 
